@@ -123,6 +123,14 @@ func ppuMain(c *Ctx) {
 				emit("frames", &ppuScript{stat: st, lyc: ly, cycles: frames*17556 + 2500, sw: [][3]int{{3 + rng.Intn(40), 1, -1}}})
 			}
 		}
+		// the LCD left on for a long time: a counter inside the PPU that wraps (2^16 cycles is 3.7 frames, 2^20 is 60) must not show
+		long := []int{5}
+		if thorough {
+			long = []int{16, 61}
+		}
+		for _, fr := range long {
+			emit("frames", &ppuScript{stat: []int{0, 64}[fr%2], lyc: 113, cycles: fr*17556 + 300, sw: [][3]int{{3 + rng.Intn(40), 1, -1}}})
+		}
 		// several sources at once (STAT not judged, VBlank and timing are)
 		emit("frames", &ppuScript{stat: 0x78, lyc: 10, cycles: 17556 + 500, sw: [][3]int{{5, 1, 0}}})
 	}
